@@ -76,8 +76,13 @@ def _run_one(crate_dir, target_dir, h, flags, timeout_s, mem_gb, results, lock_b
     if status is None:
         if 'VERIFICATION:- SUCCESSFUL' in out:
             status = 'success'
-        elif 'VERIFICATION:- FAILED' in out:
+        elif 'VERIFICATION:- FAILED' in out and re.search(r'CBMC failed with status|CBMC timed out|out of memory|unwinding assertion', out, re.I) and not re.search(r'Failed Checks: (?!.*unwinding)', out):
+            # the back end crashed / ran out of resources / the unwind bound was too small: never a verdict
+            status = 'error(backend: %s)' % (re.search(r'(CBMC failed with status \d+|CBMC timed out|out of memory|unwinding assertion)', out, re.I).group(1))
+        elif 'VERIFICATION:- FAILED' in out and 'Failed Checks:' in out:
             status = 'failed'
+        elif 'VERIFICATION:- FAILED' in out:
+            status = 'error(failed without a failed check)'
         else:
             status = 'error(rc=%s)' % p.returncode
     rec['status'] = status
@@ -95,6 +100,15 @@ def _run_one(crate_dir, target_dir, h, flags, timeout_s, mem_gb, results, lock_b
             rec['witness'] = [{'value': v, 'bytes': b.strip()} for v, b in vals][:64]
     elif status != 'success':
         rec['output_tail'] = out[-1500:]
+    if status == 'failed' and not rec.get('witness') and not h.get('playback') and not h.get('_second'):
+        # obtain the counterexample: run the harness once more with concrete playback
+        h2 = dict(h)
+        h2['playback'] = True
+        h2['_second'] = True
+        tmp = []
+        _run_one(crate_dir, target_dir, h2, flags, timeout_s, mem_gb, tmp, lock_build)
+        if tmp and tmp[0].get('witness'):
+            rec['witness'] = tmp[0]['witness']
     results.append(rec)
 
 
